@@ -66,10 +66,10 @@ def parse_contracts(path):
         if not line.strip() or line.lstrip().startswith("#"):
             continue
         if line.startswith("@fn"):
-            m = re.match(r"@fn\s+(\w+)(?:\s+(\d+))?\s*\|\s*(.*)$", line)
+            m = re.match(r"@fn\s+(\w+)(?:\s+(\d+))?(?:\s+in\s+`([^`]*)`)?\s*\|\s*(.*)$", line)
             if not m:
                 raise Undecided("%s:%d: bad @fn line" % (path, ln))
-            cur = dict(fn=m.group(1), ordinal=int(m.group(2) or 1), props=m.group(3).split(),
+            cur = dict(fn=m.group(1), ordinal=int(m.group(2) or 1), ctx=m.group(3), props=m.group(4).split(),
                        clauses=[], line=ln, cfg=None)
             out.append(cur)
             continue
@@ -105,11 +105,20 @@ def _tests_start(lines):
     return len(lines)
 
 
-def find_fn_line(lines, name, ordinal):
+def find_fn_line(lines, name, ordinal, ctx=None):
+    """n-th `fn name` of the file (outside the tests module); with a context (the text of an
+    `impl ...` header line) the n-th `fn name` AFTER the first line containing that text — so that
+    adding or removing an unrelated function of the same name elsewhere does not move the anchor."""
     end = _tests_start(lines)
     pat = re.compile(r"^\s*(?:pub(?:\([^)]*\))?\s+)?(?:const\s+)?(?:unsafe\s+)?fn\s+%s\b" % re.escape(name))
     k = 0
-    for i in range(end):
+    start = 0
+    if ctx:
+        hits = [i for i in range(end) if ctx in lines[i]]
+        if not hits:
+            return None
+        start = hits[0]
+    for i in range(start, end):
         if pat.match(lines[i]):
             k += 1
             if k == ordinal:
@@ -126,9 +135,9 @@ def inject_contracts(src_dir, contracts, report):
         lines = open(p).read().split("\n")
         ins = []
         for it in items:
-            idx = find_fn_line(lines, it["fn"], it["ordinal"])
+            idx = find_fn_line(lines, it["fn"], it["ordinal"], it.get("ctx"))
             if idx is None:
-                raise Undecided("anchor lost: %s `fn %s` #%d" % (src, it["fn"], it["ordinal"]))
+                raise Undecided("anchor lost: %s `fn %s` #%d%s" % (src, it["fn"], it["ordinal"], (" in `%s`" % it["ctx"]) if it.get("ctx") else ""))
             indent = re.match(r"\s*", lines[idx]).group(0)
             new = []
             for kind, expr in it["clauses"]:
